@@ -88,7 +88,8 @@ class TransitionDipoleMoment(SelfAdjointOperator, BasisManaged):
         """Returns a component of the transition dipole moment operator
         
         """
-        return SelfAdjointOperator(dim=self.dim, data=self.data[:,:,n])
+        # a copy: the object handed out has its own basis bookkeeping
+        return SelfAdjointOperator(dim=self.dim, data=self.data[:,:,n].copy())
     
     def get_dipole_length_operator(self):
         """Returns operator composed of the dipole strengths
